@@ -283,6 +283,12 @@ def oracle(ctx, deep):
         runs = [r for r in runs if r[0].split('/')[0] in keep or r[0].startswith('walk')]
         runs = [r for r in runs if not r[0].endswith(('conf1', 'conf2'))][:26]
     fails, _ = run(ctx, runs, with_oracle=True, record=False)
+    if not fails:
+        # a peer that holds the keys and misbehaves / differing configurations (props/hdl.py): the table clauses are
+        # local to an endpoint and hold at the deviant one too (it runs the real code; only what it SENDS is rewritten)
+        dev = [(label, conf, acts) for label, acts, conf, seed, skip in hdl.deviant_set(deep, ctx.seed)]
+        f2, _ = run(ctx, dev, with_oracle=True, record=False)
+        fails += f2
     return fails
 
 
